@@ -174,6 +174,8 @@ class Ref(object):
                 return ["ok", ["v", s[1], s[2]]]
             if act == "err":
                 return ["exc", ["item", s[4]]]
+            if act == "errbase":
+                return ["exc", ["itembase", s[4]]]
             if act == "unset":
                 return ["exc", "AssertionError"]
             return ["exc", act[1]]
